@@ -126,8 +126,13 @@ class MystParser(SphinxParser):
                     warning = document.reporter.warning("Raw content disabled.")
                     # the message is a body element: put it after the enclosing text
                     # element (title, paragraph, ...), not into its text
+                    # (nor between the name and the body of a field: a field has exactly
+                    # these two children, which e.g. Sphinx asserts for the docinfo)
                     anchor = node
-                    while isinstance(anchor.parent, nodes.TextElement):
+                    while isinstance(
+                        anchor.parent,
+                        nodes.TextElement | nodes.field | nodes.field_list,
+                    ):
                         anchor = anchor.parent
                     anchor.parent.insert(anchor.parent.index(anchor) + 1, warning)
                     parent = node.parent
